@@ -323,16 +323,12 @@ def rule_FR2(ctx, rep):
             if g is not None:
                 op, e = g
                 E = to_lin(e, st.env)
-                if op is ast.Lt and terminates(s.body):
-                    walk(s.body, st.copy())
+                if op in (ast.Lt, ast.LtE):
+                    # in the branch taken when the buffer is short nothing is learnt; on the other branch (and after the statement,
+                    # if the short branch leaves) at least E bytes are buffered
                     out = st.copy()
-                    out.lbs.append(E)
-                    return walk(s.orelse, out) if s.orelse else [out]
-                if op is ast.LtE and terminates(s.body):
-                    walk(s.body, st.copy())
-                    out = st.copy()
-                    out.lbs.append(E + 1)
-                    return walk(s.orelse, out) if s.orelse else [out]
+                    out.lbs.append(E + (1 if op is ast.LtE else 0))
+                    return walk(s.body, st.copy()) + (walk(s.orelse, out) if s.orelse else [out])
                 if op in (ast.GtE, ast.Gt):
                     inner = st.copy()
                     inner.lbs.append(E + (1 if op is ast.Gt else 0))
@@ -836,7 +832,9 @@ def rule_HS1(ctx, rep):
     def prss_ctx(fn, node, pmx):
         """path condition of node, restricted to the PRSS option"""
         return cond.project(cond.context(fn, node, pmx), lambda a: a.endswith('.no_prss'))        # the option itself, not a test that mentions it
-    if len(wcall) == 1 and len(rcalls) == 2:
+    # (a helper inlined into both branches of a test can repeat a call; copies on contradictory paths do not count)
+    rcalls = [c for c in rcalls if cond.satisfiable(cond.context(dr, c, pmd))]
+    if len(wcall) == 1 and len(rcalls) >= 2 and sorted({len(c.args) for c in rcalls}) == [1, 2] and len({norm(c) for c in rcalls}) == 2:
         gwr = prss_ctx(cm, wcall[0], pmc)
         if 'no_prss' in cond.fmt(gwr) and all(cond.equivalent(prss_ctx(dr, c, pmd), gwr) for c in rcalls):
             rep.ok('HS1', dr, rcalls[0], f'keys are written and read under the same option test ({cond.fmt(gwr)})')
@@ -844,7 +842,7 @@ def rule_HS1(ctx, rep):
             rep.bad('HS1', dr, rcalls[0], 'key sending and key reading are not governed by the same no_prss test: one side sends keys the other does not expect')
         # size call has no data, store call has the buffer; same peer argument
         a0 = {norm(routes.xp(dr, c.args[0], c, pmd)) for c in rcalls}
-        if len(a0) == 1 and sorted(len(c.args) for c in rcalls) == [1, 2]:
+        if len(a0) == 1 and sorted({len(c.args) for c in rcalls}) == [1, 2]:
             rep.ok('HS1', dr, rcalls[1], 'length computed and keys stored for the same peer id')
         else:
             rep.bad('HS1', dr, rcalls[1], 'length computation and key storing use different peers / arities')
